@@ -142,7 +142,7 @@ def rand_cliques(rng, n, k, maxlen):
 def run(ctx, canary=False):
     rng = random.Random(ctx.seed)
     thorough = ctx.tier == "thorough"
-    ctx.rule = ("TLC enumerates every labelled graph on <=4 (thorough: 5) attributes x every elimination order x every "
+    ctx.rule = ("TLC enumerates every labelled graph on <=4 attributes x every elimination order x every "
                 "max-weight tree x every message schedule; each (structure, order) is replayed on JunctionTree with "
                 "permuted/duplicated/nested clique spellings and permuted domain order; recorded trees+schedules of the "
                 "code's own modes (None/int/permutation) are validated by JTTrace.tla. non-trivial = distinct "
